@@ -15,6 +15,7 @@ import (
 	"github.com/alephium/wormhole-fork/node/pkg/common"
 	"github.com/alephium/wormhole-fork/node/pkg/db"
 	"github.com/alephium/wormhole-fork/node/pkg/ecdsasigner"
+	"github.com/alephium/wormhole-fork/node/pkg/notify/discord"
 	"github.com/alephium/wormhole-fork/node/pkg/processor"
 	gossipv1 "github.com/alephium/wormhole-fork/node/pkg/proto/gossip/v1"
 	"github.com/alephium/wormhole-fork/node/pkg/reporter"
@@ -75,6 +76,7 @@ type Node struct {
 	quorumC  chan *vaa.VAA
 	unsub    func()
 	OwnKey   int
+	held [][]byte // StepFullSend: the handler's own messages taken off the queue together with the fillers
 	// DB is the store this node uses: the world's shared store, or a private instance (fault scenarios)
 	DB       *db.Database
 	private  bool
@@ -118,6 +120,73 @@ func ShortScalarSeqs(key int, mk func(seq uint64) Msg, want int) (shortR, shortS
 		}
 	}
 	return
+}
+
+// noNotifier: the processor is wired the way cmd/guardiand/node.go wires it when no Discord token is configured -
+// a nil *discord.DiscordNotifier VARIABLE (not the literal nil) is handed to NewProcessor.
+var noNotifier *discord.DiscordNotifier
+
+// StepFullSend performs a tick while the outbound gossip queue cannot take anything (its consumer is busy): a
+// re-broadcast has to wait for room, it must not be skipped. The queue is filled, the tick is dispatched on a
+// goroutine of its own, and the harness watches (goroutine states, no clock) until the handler has finished or
+// is parked in a channel send; then the fillers are drained and the handler's own sends are collected.
+func (n *Node) StepFullSend(e interface{}) (out Out) {
+	filler := []byte("verif-filler")
+	nf := 0
+	for len(n.SendC) < cap(n.SendC) {
+		n.SendC <- filler
+		nf++
+	}
+	done := make(chan struct{})
+	go func() {
+		defer close(done)
+		defer func() {
+			if p := recover(); p != nil {
+				out.Panic = p
+				out.Stack = string(debug.Stack())
+			}
+		}()
+		n.P.VerifDispatch(n.W.Ctx, e)
+	}()
+	buf := make([]byte, 1<<20)
+	for finished := false; !finished; {
+		select {
+		case <-done:
+			finished = true
+		default:
+			st := string(buf[:runtime.Stack(buf, true)])
+			if i := strings.Index(st, "handleCleanup"); i >= 0 && strings.Contains(st, "[chan send") {
+				// parked waiting for room: make room (drop the fillers), the handler goes on
+				for k := 0; k < nf; k++ {
+					select {
+					case b := <-n.SendC:
+						if string(b) != string(filler) {
+							n.held = append(n.held, b)
+						}
+					default:
+					}
+				}
+				nf = 0
+				out.Blocked = true
+			}
+			runtime.Gosched()
+		}
+	}
+	for k := 0; k < nf; k++ { // never parked: the fillers are still there
+		select {
+		case b := <-n.SendC:
+			if string(b) != string(filler) {
+				n.held = append(n.held, b)
+			}
+		default:
+		}
+	}
+	for _, b := range n.held { // put the handler's own messages back for drain
+		n.SendC <- b
+	}
+	n.held = nil
+	n.drain(&out)
+	return out
 }
 
 // KMSPathSigner signs like the guardian's Cloud KMS signer: the signature travels DER-encoded and is brought
@@ -201,7 +270,7 @@ func (w *World) build(ownKey int, reqCap int, d *db.Database, private bool) *Nod
 	n.P = processor.NewProcessor(w.Ctx, d,
 		n.LockC, n.SetC, n.SendC, n.ObsvC, n.ObsvReqC,
 		n.InjectC, n.SignedInC,
-		signer, n.GST, rep, nil, GovChain, GovAddr)
+		signer, n.GST, rep, noNotifier, GovChain, GovAddr)
 	return n
 }
 
